@@ -1,4 +1,6 @@
 import sys, os, argparse, importlib.util
+from . import pyarena
+pyarena.install()
 from . import driver
 
 
